@@ -613,7 +613,7 @@ def random_case(rng: random.Random, tables) -> Case:
         bank = rng.choice(BANKS)
         uses[rng.randrange(len(uses))].args = [(f"{kw}={bank!r}",)] if rng.random() < 0.7 else [(f"{bank!r}, {kw}={rng.choice(BANKS)!r}",)]
     elif bad == "nonstring-expr":
-        uses[rng.randrange(len(uses))].args = [(rng.choice(["'a' + 'b'", "e", "('x',)"]),)]
+        uses[rng.randrange(len(uses))].args = [(rng.choice(["'a' + 'b'", "e", "('x',)", "-1", "1 + 1", "-(2.5)", "not True"]),)]
     pos = "tuple"
     if bad is None and len(uses) == 2 and sp.get(uses[0].name, {}).get("coll") and rng.random() < 0.4:
         pos = rng.choice(["nested", "where"])
